@@ -55,10 +55,14 @@ def main():
             d = os.path.join(VERIF, "seeded", sid)
             meta = json.load(open(os.path.join(d, "meta.json")))
             pid = meta["property"]
-            sh("git -C %s/repo checkout -- . && git -C %s/repo clean -fdq" % (MUT, MUT))
+            sh("git -C %s/repo reset --hard -q && git -C %s/repo clean -fdq" % (MUT, MUT))
             r = sh("git -C %s/repo apply %s/patch.diff" % (MUT, d))
             if r.returncode != 0:
                 r = sh("git -C %s/repo apply -3 %s/patch.diff" % (MUT, d))
+                if r.returncode != 0 or sh("git -C %s/repo diff --name-only --diff-filter=U" % MUT).stdout.strip():
+                    # a failed three-way merge leaves conflict markers behind: never build that
+                    sh("git -C %s/repo reset --hard -q && git -C %s/repo clean -fdq" % (MUT, MUT))
+                    r.returncode = 1
             applied = r.returncode == 0
             out, rc, wall = "", None, 0
             if applied:
